@@ -34,7 +34,7 @@
     the [_refuted] ones describe the unrepaired form (and stay as regression theorems
     afterwards), [C07_assigned_parameter_emitted] / [C07_untouched_variable_zero] the repaired. *)
 From Coq Require Import List NArith QArith.
-From Codegen Require Import Codegen CodegenSpec ExpectedFacts GenCodegenFacts CgInst CodegenProofs CgInstProofs.
+From Codegen Require Import Codegen CodegenSpec CallArity ExpectedFacts GenCodegenFacts CgInst CodegenProofs CallArityProofs CgInstProofs.
 Import ListNotations.
 
 Theorem C07_facts_pinned :
@@ -142,6 +142,157 @@ Theorem C07_cache_evaluated_coefficient_refuted :
             /\ outcome_eqb (execQ gen_codegen_facts Py p 0 [1] [5]) (ROk [6]) = true.
 Proof. exact (cache_evaluated_coefficient_refuted C07_expected_ia C07_expected_untouched gen_codegen_facts expected_ia_ok expected_ut_ok C07_facts_pinned). Qed.
 Print Assumptions C07_cache_evaluated_coefficient_refuted.
+
+(** ---- "a function that cannot be translated makes generation raise instead of emitting code that
+         computes something else": the ARGUMENT BINDING of fn_to_sympy (CallArity.v) --------------
+
+    fn_to_sympy replaces the callee's positional parameter names by the call's argument expressions
+    (for a model component: the symbols of its argument names; for a nested call: the translated
+    arguments) and knows nothing about default values, keyword-only parameters or *args.
+    [translate_call bk f acts] is fn_to_sympy(f, model_args=acts) under the form [bk] of the binding
+    statement, [py_call f vs] what CPython computes for the call (defaults filled in, *args taking
+    the surplus).  [gen_bind_fact] is REGENERATED from source_tools.py; ExpectedFacts.v says which
+    form the tree has: [BkStrictNonEmpty] (a call passing NO argument skips the binding -- recorded
+    finding defaulted-parameters-no-arguments) or, after fixes/C07-empty-argument-list-strict.diff,
+    [BkStrict].  The guard "acts <> [] \/ C07_expected_bind = BkStrict" is void once repaired. *)
+Theorem C07_bind_fact_pinned : gen_bind_fact = C07_expected_bind.
+Proof. vm_compute. reflexivity. Qed.
+Print Assumptions C07_bind_fact_pinned.
+
+(** NO PARAMETER IS LEFT BEHIND: for every function and every argument list, every name in the
+    translation of a call is a name of its argument expressions *)
+Theorem C07_call_no_parameter_left_behind :
+  forall (V : Type) (f : pyfn V) (acts : list (texp V)) (r : texp V),
+    acts <> [] \/ C07_expected_bind = BkStrict ->
+    translate_call V gen_bind_fact f acts = Some r ->
+    forall n, In n (syms V r) -> exists a, In a acts /\ In n (syms V a).
+Proof. exact (call_closed_pinned C07_expected_bind gen_bind_fact expected_bind_not_lax expected_bind_not_unknown C07_bind_fact_pinned). Qed.
+Print Assumptions C07_call_no_parameter_left_behind.
+
+(** ... and it has the value CPython computes for the call, in every environment *)
+Theorem C07_call_value :
+  forall (V : Type) (vadd vsub vmul : V -> V -> V) (f : pyfn V) (acts : list (texp V)) (r : texp V)
+         (env : name -> option V) (vs : list V),
+    acts <> [] \/ C07_expected_bind = BkStrict ->
+    translate_call V gen_bind_fact f acts = Some r ->
+    map_opt (teval V vadd vsub vmul env) acts = Some vs ->
+    teval V vadd vsub vmul env r = py_call V vadd vsub vmul f vs.
+Proof. exact (call_sound_pinned C07_expected_bind gen_bind_fact expected_bind_not_lax expected_bind_not_unknown C07_bind_fact_pinned). Qed.
+Print Assumptions C07_call_value.
+
+(** a call whose number of arguments is not the number of positional parameters -- one that relies
+    on a default value, one whose surplus *args would take -- is refused *)
+Theorem C07_call_relying_on_default_refused :
+  forall (V : Type) (f : pyfn V) (acts : list (texp V)),
+    acts <> [] \/ C07_expected_bind = BkStrict ->
+    length acts <> length (fn_args V f) ->
+    translate_call V gen_bind_fact f acts = None.
+Proof. exact (call_refused_pinned C07_expected_bind gen_bind_fact expected_bind_not_lax expected_bind_not_unknown C07_bind_fact_pinned). Qed.
+Print Assumptions C07_call_relying_on_default_refused.
+
+(** a body that reads a keyword-only parameter is refused (under every form of the binding) *)
+Theorem C07_keyword_only_parameter_refused :
+  forall (V : Type) (f : pyfn V) (acts : list (texp V)) (n : name),
+    In n (syms V (pf_body V f)) -> ~ In n (fn_args V f) -> translate_call V gen_bind_fact f acts = None.
+Proof. exact (fun V => kwonly_refused V gen_bind_fact). Qed.
+Print Assumptions C07_keyword_only_parameter_refused.
+
+(** a model function that calls one helper: every name of its translation is one of the argument
+    names the MODEL passes -- no parameter of the helper or of the function itself reaches the
+    emitted code, where it would read a model component of the same name *)
+Theorem C07_translation_reads_model_arguments_only :
+  forall (V : Type) (e : entry V) (r : texp V),
+    (en_nargs V e <> [] /\ forall k acts, en_call V e = Some (k, acts) -> acts <> [])
+    \/ C07_expected_bind = BkStrict ->
+    translate_entry V gen_bind_fact e = Some r ->
+    forall n, In n (syms V r) -> In n (en_nargs V e).
+Proof. exact (entry_closed_pinned C07_expected_bind gen_bind_fact expected_bind_not_lax expected_bind_not_unknown C07_bind_fact_pinned). Qed.
+Print Assumptions C07_translation_reads_model_arguments_only.
+
+(** the table's functions that rely on a default value (helper called short, two defaults with one
+    supplied, a defaulted parameter of the model function itself), on a keyword-only parameter or on
+    *args ([by_arity_refused] = ids 28..35 of harness/c07_fns.py; their translatability is COMPUTED by
+    the binding model from their signatures, [translatesQ_at]): a model using one of them as the
+    function of a derived quantity, of a reaction or of a computed coefficient makes generation
+    raise in all four languages *)
+Theorem C07_default_reliant_function_raises :
+  forall (L : lang) (m : cmodel Q) (order free : list name),
+    NoDup (map fst (m_der m) ++ map fst (m_rxn m)) ->
+    incl (map fst (m_der m) ++ map fst (m_rxn m)) order ->
+    (exists n f a, In (n, (f, a)) (m_der m) /\ In f by_arity_refused)
+    \/ (exists n f a st, In (n, (f, a, st)) (m_rxn m) /\ In f by_arity_refused)
+    \/ (exists n f a st x g ga, In (n, (f, a, st)) (m_rxn m) /\ In (x, CDyn g ga) st /\ In g by_arity_refused) ->
+    forall p, generateQ_at gen_bind_fact gen_codegen_facts L m order free <> GOk p.
+Proof. exact (default_reliant_raises_pinned C07_expected_ia C07_expected_untouched gen_codegen_facts C07_expected_bind gen_bind_fact C07_facts_pinned expected_bind_not_lax expected_bind_not_unknown C07_bind_fact_pinned). Qed.
+Print Assumptions C07_default_reliant_function_raises.
+
+(** the form [BkStrictNonEmpty] (the tree while C07_expected_bind says so, a regression theorem
+    afterwards): u_empty_helper(a) = a * k_two() with k_two(n0011=2.0) = n0011 * 3.0 -- CPython
+    computes 18 at a = 3; the "translation" keeps the helper's parameter as a bare symbol: 36 when the
+    model has a component n0011 = 4, undefined when it has none; likewise the coefficient function
+    u_empty_top(n0011=2.0) over no argument; generation does NOT raise, in any language *)
+Theorem C07_empty_call_leaks_refuted :
+  forall ia ut, ia <> IaUnknown -> ut <> UtUnknown ->
+  exists r, translate_entryQ BkStrictNonEmpty e_empty_helper = Some r
+            /\ In 11%N (syms Q r) /\ ~ In 11%N (en_nargs Q e_empty_helper)
+            /\ optQ_eqb (py_entryQ e_empty_helper [3]) (Some 18) = true
+            /\ optQ_eqb (tevalQ (env1 3 (Some 4)) r) (Some 36) = true
+            /\ tevalQ (env1 3 None) r = None
+            /\ (exists r', translate_entryQ BkStrictNonEmpty e_empty_top = Some r' /\ In 11%N (syms Q r'))
+            /\ (forall L, exists p, generateQ_at BkStrictNonEmpty (C07_facts ia ut) L w_empty_call [20%N] [] = GOk p)
+            /\ (forall L, exists p, generateQ_at BkStrictNonEmpty (C07_facts ia ut) L w_empty_coef [20%N] [] = GOk p).
+Proof. exact empty_call_leaks_refuted. Qed.
+Print Assumptions C07_empty_call_leaks_refuted.
+
+(** ... with the binding also applied to an empty argument list ([BkStrict],
+    fixes/C07-empty-argument-list-strict.diff) both are refused and generation raises *)
+Theorem C07_empty_call_raises :
+  forall ia ut,
+  translate_entryQ BkStrict e_empty_helper = None /\ translate_entryQ BkStrict e_empty_top = None
+  /\ forall L p, generateQ_at BkStrict (C07_facts ia ut) L w_empty_call [20%N] [] <> GOk p
+                 /\ generateQ_at BkStrict (C07_facts ia ut) L w_empty_coef [20%N] [] <> GOk p.
+Proof. exact empty_call_raises. Qed.
+Print Assumptions C07_empty_call_raises.
+
+(** regression witness (seeded change C07-6, zip without strict=True, [BkLaxNonEmpty]):
+    u_default_helper(a) = k_scale(a), k_scale(s, n0011=2.0) = s * n0011 -- CPython 6 at a = 3, the
+    translation 12 with a model component n0011 = 4, undefined without; u_default_inner(a, g) =
+    k_gain(a) - g, k_gain(s, g=2.0): the leftover g is replaced by the CALLER's own argument (1
+    becomes 10 at a = 3, g = 5); generation does not raise; both strict forms refuse *)
+Theorem C07_lax_binding_refuted :
+  forall ia ut, ia <> IaUnknown -> ut <> UtUnknown ->
+  exists r, translate_entryQ BkLaxNonEmpty e_default_helper = Some r
+            /\ In 11%N (syms Q r)
+            /\ optQ_eqb (py_entryQ e_default_helper [3]) (Some 6) = true
+            /\ optQ_eqb (tevalQ (env1 3 (Some 4)) r) (Some 12) = true
+            /\ tevalQ (env1 3 None) r = None
+            /\ (exists r', translate_entryQ BkLaxNonEmpty e_default_inner = Some r'
+                           /\ optQ_eqb (py_entryQ e_default_inner [3; 5]) (Some 1) = true
+                           /\ optQ_eqb (tevalQ (fun k => if N.eqb k 9001%N then Some 3 else if N.eqb k 9002%N then Some 5 else None) r')
+                                       (Some 10) = true)
+            /\ (forall L, exists p, generateQ_at BkLaxNonEmpty (C07_facts ia ut) L w_default_call [20%N] [] = GOk p)
+            /\ (forall bk, bk = BkStrict \/ bk = BkStrictNonEmpty ->
+                           translate_entryQ bk e_default_helper = None /\ translate_entryQ bk e_default_inner = None).
+Proof. exact lax_binding_refuted. Qed.
+Print Assumptions C07_lax_binding_refuted.
+
+(** non-vacuity of the binding theorems: a call that supplies every positional parameter is
+    translated (k_scale(a, 3) = a * 3, one name, CPython's value 15 at a = 5); CPython itself
+    accepts the refused calls (default used: 10; *args: 10; keyword-only default: 10) and rejects a
+    call without the required argument *)
+Example C07_arity_nonvacuous :
+  (forall bk, bk = BkStrict \/ bk = BkStrictNonEmpty ->
+     exists r, translate_call Q bk k_scale [TSym 9001%N; TNum 3] = Some r
+               /\ syms Q r = [9001%N]
+               /\ optQ_eqb (tevalQ (env1 5 None) r) (Some 15) = true
+               /\ optQ_eqb (py_call Q Qplus Qminus Qmult k_scale [5; 3]) (Some 15) = true)
+  /\ optQ_eqb (py_call Q Qplus Qminus Qmult k_scale [5]) (Some 10) = true
+  /\ length [TSym (V:=Q) 9001%N] <> length (fn_args Q k_scale)
+  /\ optQ_eqb (py_call Q Qplus Qminus Qmult k_star [5; 7; 9]) (Some 10) = true
+  /\ optQ_eqb (py_call Q Qplus Qminus Qmult k_kw [5]) (Some 10) = true
+  /\ py_call Q Qplus Qminus Qmult k_scale [] = None.
+Proof. exact arity_nonvacuous. Qed.
+Print Assumptions C07_arity_nonvacuous.
 
 (** ---- recorded findings (the code still behaves like this; known_findings.d/C07.json) ---- *)
 
